@@ -406,6 +406,15 @@ func main() {
 				r.ContentLength = int64(len(raw) + 10)
 				return bytes.NewReader(raw)
 			})
+			// an announced length is the peer's claim, not a bound on what arrives: nothing may size
+			// memory from it
+			for _, huge := range []int64{1 << 31, 1 << 62, 1<<63 - 1} {
+				huge := huge
+				bodyMut(fmt.Sprintf("content-length %d announced", huge), "either", func(r *http.Request, raw []byte) io.Reader {
+					r.ContentLength = huge
+					return bytes.NewReader(raw)
+				})
+			}
 			bodyMut("content-length unknown", "none", func(r *http.Request, raw []byte) io.Reader {
 				r.ContentLength = -1
 				return bytes.NewReader(raw)
